@@ -1,4 +1,9 @@
+pub mod assets;
 pub mod core;
+pub mod jumbf_walk;
+pub mod pki;
 pub mod rng;
 pub mod sdk;
+pub mod streams;
+pub mod walk;
 pub use crate::core::{catch, digest, quiet_panics, CaseResult, Fail, Run, Tier};
